@@ -21,6 +21,9 @@ SEED = int(os.environ.get("VERIF_SEED", "1") or "1")
 NCPU = os.cpu_count() or 4
 
 
+CURRENT = None
+
+
 class ToolError(Exception):
     pass
 
@@ -281,6 +284,8 @@ class Report:
         self.nontrivial = set()
         self.samples = []
         self.violations = []   # (what, replay_path)
+        global CURRENT
+        CURRENT = self         # (bin/check: violations recorded before a tool error are still reported)
         self.known_hits = []
         self.assumptions = []
         self.extra = {}
